@@ -100,6 +100,13 @@ pub struct HotTier {
 
     /// Drain when this much time passes since the last drain.
     max_age: Duration,
+
+    /// Excludes deletes from the window between `drain_for_flush` (mirror entries leave the
+    /// map) and the end of the drain's reconciliation against the cold tier. A delete that
+    /// completes inside that window finds no mirror entry to remove, and the drain then
+    /// sees "canonical state missing" and repairs it from its stale copy, resurrecting the
+    /// document. Deletes hold it shared, a drain holds it exclusively.
+    drain_gate: RwLock<()>,
 }
 
 impl HotTier {
@@ -119,7 +126,19 @@ impl HotTier {
             max_size,
             max_age,
             distance,
+            drain_gate: RwLock::new(()),
         }
+    }
+
+    /// Shared side of the drain gate: hold for the whole duration of a delete.
+    pub fn delete_guard(&self) -> parking_lot::RwLockReadGuard<'_, ()> {
+        self.drain_gate.read_recursive()
+    }
+
+    /// Exclusive side of the drain gate: hold from before `drain_for_flush` until the
+    /// drained documents have been reconciled.
+    pub fn drain_guard(&self) -> parking_lot::RwLockWriteGuard<'_, ()> {
+        self.drain_gate.write()
     }
 
     /// Insert or refresh the in-memory mirror entry for a recently written document.
